@@ -13,7 +13,8 @@ CACHE_DECORATORS = ('lru_cache', 'cache', 'cached_property', 'memoize')
 # site -> why it does not break history-independence on the unchanged tree
 ALLOWED = {
     ('pgradd/GroupAdd/DataDir.py', 'get_data_dir', 'global _data_dir_cached rebound'):
-        'memo of the data directory; the environment override is re-read before the memo is used (C14 unit get_data_dir)',
+        'memo of the data directory: the environment override is read ONCE per process, at the first use (C14 unit get_data_dir); a relocated copy has '
+        'identical contents (C14 data obligation), so which copy is read does not change any result',
     ('pgradd/GroupAdd/Library.py', 'GroupLibrary.register_property_set_type', 'class container cls._property_set_estimator_types (item)'):
         'registry filled once at import of pgradd.ThermoChem',
     ('pgradd/GroupAdd/Library.py', 'GroupLibrary.register_property_set_type', 'class container cls._property_set_group_yaml_types (item)'):
